@@ -256,11 +256,45 @@ pub fn plan(prop: &str, tier: Tier) -> Option<Plan> {
         ),
         _ => return None,
     };
-    // the ThreadSanitizer flavour (real threads, TSan as the oracle) joins the plan when its binary was built
-    // (./check builds it for the thorough tier of the schedule-dependent properties, or with VERIF_TSAN=1)
     let mut jobs = jobs;
     let mut rule = rule;
     let mut assumptions = assumptions;
+    // the nightly `unstable_dropck_eyepatch` configuration (Arc's other Drop impl) joins the lifecycle / layout /
+    // constructor / uninit plans when its binary was built (./check builds it if the nightly toolchain works)
+    if std::env::var_os("TV_BIN_EYEP").is_some() && matches!(prop, "C01" | "C05" | "C06" | "C15") {
+        match prop {
+            "C01" => {
+                jobs.push(jobb(sized_engine("tok8", "C01", if q { 48 } else { 160 }), if q { 3000 } else { 120_000 }, "eyep"));
+                jobs.push(jobb(sized_engine("tokz", "C01", if q { 48 } else { 160 }), if q { 1000 } else { 40_000 }, "eyep"));
+                jobs.push(jobb(thin_engine("8b/8", "C01", if q { 40 } else { 128 }), if q { 2000 } else { 80_000 }, "eyep"));
+            }
+            "C05" => jobs.push(job(MatrixEngine::new("C05"), if q { 15_000 } else { 3_000_000 }, "eyep")),
+            "C06" => {
+                for (e, w) in eng::ctor::ctor_engines() {
+                    jobs.push(jobb(e, w * if q { 800 } else { 40_000 }, "eyep"));
+                }
+            }
+            _ => {
+                for e in eng::uninit::engines() {
+                    jobs.push(jobb(e, if q { 3000 } else { 100_000 }, "eyep"));
+                }
+            }
+        }
+        rule.push_str(" | the same engines also run against a nightly build of the crate with `unstable_dropck_eyepatch` (flavour eyep).");
+    }
+    // the ThreadSanitizer flavour (real threads, TSan as the oracle) joins the plan when its binary was built
+    // (./check builds it for the thorough tier of the schedule-dependent properties, or with VERIF_TSAN=1)
+    // compile probes: the impls / constructors exist for the whole class of payload types the property
+    // quantifies over (a tightened bound cannot be seen by engines that are themselves compiled against it)
+    if matches!(prop, "C06" | "C14" | "C17") {
+        let p: &'static str = match prop {
+            "C06" => "C06",
+            "C14" => "C14",
+            _ => "C17",
+        };
+        jobs.push(job(crate::accept::AcceptEngine { prop: p }, 0, "all"));
+        rule.push_str(" | accept-probes: universally quantified generic functions (and payload classes the dynamic engines cannot instantiate, e.g. payloads borrowing from the deserializer's input) compiled by rustc against the rlib built from /repo; a rejection means a bound was tightened.");
+    }
     if std::env::var_os("TV_BIN_TSAN").is_some() {
         let extra = tsn::jobs(prop, tier);
         if !extra.is_empty() {
